@@ -23,7 +23,7 @@ ENV96 = ["src/crypto/bign96.c", "src/crypto/bign/bign_lcl.c", "src/math/ww.c", "
          "src/math/ec.c", "src/math/ecp.c", "src/crypto/belt/belt_hash.c", "src/core/mem.c", "src/core/u64.c", "src/core/u32.c", "src/core/util.c"]
 STRIP96 = {"crypto/bign96.c": ["bign96Start", "bign96Start_keep"], "bign/bign_lcl.c": ["bignStart", "bignStart_keep"], "zz/zz_mul.c": ["zzMul", "zzMod"],
            "math/ec.c": ["!_deep$|^ecNAFWidth$"], "math/ecp.c": ["!^ecpIsOnA_deep$"], "belt/belt_compr.c": ["!_deep$"],
-           "belt/belt_hash.c": ["beltHashStart", "beltHashStepH", "beltHashStepG", "beltHashStepG2", "beltHashStepV", "beltHashStepV2"]}
+           "belt/belt_hash.c": ["beltHash_keep", "beltHashStart", "beltHashStepH", "beltHashStepG", "beltHashStepG2", "beltHashStepV", "beltHashStepV2"]}
 FN96 = dict(sign="bign96Sign", verify="bign96Verify", keypairgen="bign96KeypairGen", keypairval="bign96KeypairVal", pubkeyval="bign96PubkeyVal", pubkeycalc="bign96PubkeyCalc")
 for f in ("sign", "verify", "keypairgen", "keypairval", "pubkeyval", "pubkeycalc"):
     GROUPS.append(G("flow96.%s" % f, "harness/C16/flow96.c", "h_" + f, ENV96, defs=["L=96"], stubs=["stubs/bign_env.c"], strip=STRIP96,
